@@ -337,6 +337,34 @@ def check(prog, run):
     itervars.check(prog, run, "U1", ["py_gql.sdl"], 40,
                    "members contributed by all but one extension block are lost or repeated")
 
+    # ---- R1 the extend pass rebuilds every non-specified element
+    rr = run.rule("R1", "ASTTypeBuilder.extend_directive / extend_type: the only path that hands back the element it was given is the one for "
+                        "specified (built-in) directives / types; on every other path the result is rebuilt (constructor or _extend_* "
+                        "helper), because extend_schema rebuilds every named type: a kept element would still reference the old type "
+                        "objects and the schema is then rejected with `Duplicate type`", 2)
+    for mname in ("extend_directive", "extend_type"):
+        m = b.find_method(mname)
+        if m is None:
+            raise AnalysisError("C11.R1: ASTTypeBuilder.%s not found" % mname)
+        run.looked_at(m)
+        ps = [x for x in m.params if x != prog.self_name(m)]
+        try:
+            _ev, exits = boolx.walk_under(m.node, lambda t: None)
+        except ValueError as e:
+            raise AnalysisError("C11.R1: %s" % e)
+        rets = [(st, env) for k, st, env in exits if k == "return"]
+        rr.instance("%s: %d returning paths" % (mname, len(rets)))
+        for st, env in rets:
+            if isinstance(st.value, ast.Name) and ps and st.value.id == ps[0]:
+                atoms = {k: v for k, v in env.items() if k not in (boolx.CALLS, boolx.STMTS)}
+                allowed = any(v is True and any(w in k for w in ("SPECIFIED", "INTROPSPECTION", "INTROSPECTION", "_PROTECTED", "is_introspection", "_DEFAULT_TYPES_MAP")) for k, v in atoms.items()) \
+                    or any(v is True and "WrappingType" in k or (v is True and "ListType" in k) or (v is True and "NonNullType" in k) for k, v in atoms.items())
+                if not allowed:
+                    cond = ", ".join("%s=%s" % kv for kv in sorted(atoms.items()))
+                    run.report(rr, "%s:ASTTypeBuilder.%s:returns-source-element" % (BUILDER, mname), m.where(st),
+                               "%s returns the element it was given (when %s) although it is not a specified one: it keeps pointing at the "
+                               "type objects of the schema being extended" % (mname, cond or "always"))
+
     # ---- X1 only library errors
     r = run.rule("X1", "may-raise (explicit raises through resolved calls) of build_schema / extend_schema contains only "
                        "library errors (GraphQLError family); no exception object is constructed without being raised", 2)
